@@ -112,7 +112,7 @@ def main():
                            stdout=subprocess.DEVNULL, stderr=subprocess.DEVNULL, timeout=900)
             if os.path.exists(mini) and 0 < os.path.getsize(mini) <= os.path.getsize(art):
                 # keep it only if it still fails
-                q = subprocess.run([exe, "-artifact_prefix=/nonexistent-verif-dir/", mini], env=dict(os.environ), cwd=wd,
+                q = subprocess.run([exe, "-exact_artifact_path=/dev/null", mini], env=dict(os.environ), cwd=wd,
                                    stdout=subprocess.DEVNULL, stderr=subprocess.DEVNULL)
                 if q.returncode != 0:
                     raw = mini
